@@ -37,6 +37,12 @@ func checkC18(c *Ctx, r *Report) {
 	ecdsaSigLength(c, r, "C18.R1.ecdsa-sig-length", "SIG.Verify", "a zero octet put in front of r and of s (66 instead of 64 octets) gives different SIG RDATA that still verifies: an octet of the signed message was altered without Verify noticing")
 	c18NoSizeRefusal(c, r, "C18.R3.no-size-refusal")
 	c18KeyIdentity(c, r, "C18.R1.key-identity")
+	r.rule("C18.R2.owner-root", 1, "SIG.Sign sets the SIG's owner to the root on every path before packing")
+	sigOwnerRoot(c, r, "C18.R2.owner-root")
+	r.rule("C18.R1.ed25519-key-length", 1, "publicKeyED25519 returns a key only when it is exactly 32 octets long")
+	ed25519KeyLength(c, r, "C18.R1.ed25519-key-length")
+	r.rule("C18.R3.label-room", 1, "packDomainName's room tests against len(msg) are strict")
+	labelRoomExact(c, r, "C18.R3.label-room", "Sign, whose buffer has no slack, fails with 'buffer size too small' for a root-zone signer on a message compression does not shrink")
 }
 
 func c18R1(c *Ctx, r *Report) {
